@@ -474,6 +474,66 @@ def r13_3(rep, M, rid):
         rep.violation(rid, "Cluster.get_dimensionality return", "does not return the cached field", M.where(fq))
 
 
+# ----------------------------------------------------------------------------- R13.4 one atom order
+def r13_4(rep, M, rid):
+    """atoms, cached sub-matrix and radii of a cluster must be taken in one and the same atom order"""
+    uses = []
+    for fq in M.functions():
+        if M.parent.get(fq) != CLUSTER:
+            continue
+        for n in M.own_nodes(fq):
+            if isinstance(n, ast.Subscript) and isinstance(n.ctx, ast.Load):
+                base = norm(n.value)
+                if base in ("self._system",) or base.replace("numpy.", "np.") in ("self._radii", "np.asarray(self._radii)", "np.array(self._radii)"):
+                    uses.append((fq, base, n.slice, n))
+            if isinstance(n, ast.Call) and norm(n.func).endswith("ix_"):
+                for a in n.args:
+                    uses.append((fq, "np.ix_", a, n))
+    getter, setter = property_of(M, CLUSTER, "indices")
+    ok_forms = {"self.indices"} | {"self." + b for b in backing_fields(getter)}
+    bad = [(fq, base, idx, n) for fq, base, idx, n in uses if norm(idx) not in ok_forms]
+    rep.count("per_atom_index_uses_in_Cluster", len(uses))
+    if len(uses) < 3:
+        raise AnalysisError(f"only {len(uses)} per-atom index uses found in class Cluster (atoms, matrix rows/columns, radii expected)")
+    if bad:
+        fq, base, idx, n = bad[0]
+        rep.violation(rid, f"{fq.replace('matid.', '')}: {norm(n)[:60]}", f"`{base}` is indexed by `{norm(idx)}` while the other per-atom quantities of the cluster "
+                      "use `self.indices` as stored: atoms, distance-matrix rows and radii are then in different orders and every atom gets another "
+                      "atom's radius in the 2x supercell test", M.where(fq, n))
+    else:
+        rep.ok(rid, f"atoms, matrix rows/columns and radii are all indexed by `self.indices` ({len(uses)} uses)")
+
+
+def r13_5(rep, M, rid):
+    """the distance record a cluster works with is this call's get_distances(system_copy, radii)"""
+    from . import c01
+    GC = "matid.clustering.sbc.SBC.get_clusters"
+    c01.call_local_state(rep, M, rid, GC)
+    fl = Flow(M.func(GC))
+    gd = M.calls_to(GC, "matid.geometry.geometry.get_distances")
+    for call in M.calls_to(GC, CLUSTER + ".__init__") + M.calls_to(GC, "matid.clustering.sbc.SBC._merge_clusters") + \
+            M.calls_to(GC, "matid.clustering.sbc.SBC._localize_clusters"):
+        callee = next(iter(M.callees_of_call(GC, call)))
+        a = M.bind_args(callee, call).get("distances")
+        if a is None:
+            continue
+        sl = fl.slice(a, fl.node_of(call))
+        ok = gd and any(x is gd[0] for e in sl["exprs"] for x in ast.walk(e)) and not any(
+            isinstance(x, ast.Attribute) and isinstance(x.value, ast.Name) and x.value.id == "self" for e in sl["exprs"] for x in ast.walk(e))
+        if ok:
+            rep.ok(rid, f"get_clusters: `distances` of {callee.split('.')[-2]}.{callee.split('.')[-1]} is this call's get_distances(system_copy, radii)")
+        else:
+            rep.violation(rid, f"get_clusters: `distances` of {callee.split('.')[-1]}", f"`{norm(a)}` is not (only) the result of get_distances computed in this "
+                          "call with this call's radii: the cached 1x matrix and the forwarded radii can disagree", M.where(GC, call))
+    if gd:
+        b = M.bind_args("matid.geometry.geometry.get_distances", gd[0])
+        r = b.get("radii")
+        if r is not None and any("matid.geometry.geometry.get_radii" in M.callees_of_call(GC, c) for c in fl.calls_in_slice(r, fl.node_of(gd[0]))):
+            rep.ok(rid, "get_clusters: get_distances receives the radii resolved in this call")
+        else:
+            rep.violation(rid, "get_clusters: radii of get_distances", "the distance record is not built with this call's resolved radii", M.where(GC, gd[0]))
+
+
 def run(rep, ctx):
     M = ctx.model
     rep.explanation = ("typestate / def-use rules over class Cluster and every store to a Cluster's index set in the "
@@ -491,6 +551,12 @@ def run(rep, ctx):
         r13_2(rep, M, "R13.2")
     with rep.guard("R13.3"):
         r13_3(rep, M, "R13.3")
+    rep.rule("R13.4", "atoms, cached sub-matrix and radii of a cluster are taken in one atom order")
+    with rep.guard("R13.4"):
+        r13_4(rep, M, "R13.4")
+    rep.rule("R13.5", "the distance record of the clusters is computed in the same get_clusters call with the same radii (nothing carried between calls)")
+    with rep.guard("R13.5"):
+        r13_5(rep, M, "R13.5")
     rep.floor("R13.1", 1)
     rep.floor("R13.3", 2)
 
